@@ -106,6 +106,21 @@ def live_declarations():
         sys.argv = argv0
         logging.disable(logging.NOTSET)
     out['generated'] = {'geophires-request.json': req, 'geophires-result.json': res, 'hip-ra-x-request.json': hreq}
+    # the generator builds its parameter objects in-process: the published defaults must not depend on what that process ran before
+    try:
+        ex = sim.example_inputs()
+        for nm in ('example_multiple_gradients', 'example1_addons', 'example12_DH'):
+            if nm in ex:
+                sim.run_input(ex[nm], None)
+        logging.disable(logging.CRITICAL)
+        with contextlib.redirect_stdout(io.StringIO()), contextlib.redirect_stderr(io.StringIO()):
+            req2, res2 = GeophiresXSchemaGenerator().generate_json_schema()
+            hreq2, _ = HipRaXSchemaGenerator().generate_json_schema()
+        out['generated_warm'] = {'geophires-request.json': req2, 'geophires-result.json': res2, 'hip-ra-x-request.json': hreq2}
+    finally:
+        os.chdir(cwd0)
+        sys.argv = argv0
+        logging.disable(logging.NOTSET)
     d = REPO / 'src' / 'geophires_x_schema_generator'
     for f in out['generated']:
         try:
@@ -230,6 +245,8 @@ def run(tier: str, only_key: dict | None = None) -> int:
         attrs.append({'name': n, 'schema': {'type': s.get('type'), 'units': s.get('units'), 'default': jnum(s.get('default')),
                                             'min': jnum(s.get('minimum')), 'max': jnum(s.get('maximum'))}, 'live': lst[0]})
     committed = [{'file': f, 'equal': live['committed'].get(f) == g} for f, g in live['generated'].items()]
+    committed += [{'file': f + ' (generated after simulations ran in the same process)', 'equal': live['committed'].get(f) == g}
+                  for f, g in live.get('generated_warm', {}).items()]
     rs = live['generated']['geophires-result.json']['properties']
     fields = [(cat, fld) for cat, body in rs.items() for fld in body.get('properties', {})]
     result = extractable(fields)
